@@ -1530,6 +1530,35 @@ impl Gen {
         self.plan.push_back(Op::Obs { w });
     }
 
+    /// scenario: two entities of one archetype; one gets a static bundle inserted, the other exchanges part
+    /// of its components for the same static bundle type (in either order): whatever is cached per
+    /// (archetype, bundle type) for the first must not be used for the second, which starts from a
+    /// different archetype once the removed part is taken away
+    fn plan_edge_cache(&mut self, w: usize) {
+        let (base, out, add) = *self.rng.pick(&[(10usize, 1usize, 3usize), (10, 2, 3), (10, 1, 5), (10, 2, 6)]).unwrap();
+        for _ in 0..2 {
+            let b = self.bundle_for_types(&bundle_types(base));
+            self.plan.push_back(Op::Spawn { w, k: Some(base), b });
+        }
+        let (first, second) = (HRef::Tab(usize::MAX, 1), HRef::Tab(usize::MAX, 0));
+        let ins = |g: &mut Self, h: HRef| {
+            let b = g.bundle_for_types(&bundle_types(add));
+            g.plan.push_back(Op::Insert { w, h, k: Some(add), b });
+        };
+        let exch = |g: &mut Self, h: HRef| {
+            let b = g.bundle_for_types(&bundle_types(add));
+            g.plan.push_back(Op::Exchange { w, h, ks: out, k: Some(add), b });
+        };
+        if self.rng.chance(50) {
+            ins(self, first);
+            exch(self, second);
+        } else {
+            exch(self, first);
+            ins(self, second);
+        }
+        self.plan.push_back(Op::Obs { w });
+    }
+
     /// scenario: a world emptied by despawns and takes (not by `clear`): no live entity left, but the
     /// generation of every id it ever used is still on record; then it is repopulated through one of the
     /// spawn paths and must keep handing out handles it never handed out before
@@ -1961,6 +1990,12 @@ impl Gen {
         }
         if self.profile == Profile::Reserve && self.rng.chance(1) && self.rng.chance(35) {
             self.plan_id_limit(ctx, w);
+            if let Some(op) = self.plan.pop_front() {
+                return Self::bind_last(op, ctx);
+            }
+        }
+        if self.profile == Profile::Mixed && self.rng.chance(2) {
+            self.plan_edge_cache(w);
             if let Some(op) = self.plan.pop_front() {
                 return Self::bind_last(op, ctx);
             }
